@@ -126,6 +126,62 @@ pub fn run(tier: Tier) {
     part.outcome(format!("distinct salts overall {}", seen.len()));
     ctx.add_part(part);
 
+    // message lengths: the salt must not depend on how long the message is (buffers sized for typical messages,
+    // hash block boundaries of r || m)
+    {
+        let top: usize = if tier.thorough() { 4200 } else { 1100 };
+        let mut lens: Vec<usize> = (0..=top).collect();
+        for k in [13usize, 14, 15, 16, 17, 18, 20] {
+            lens.extend([(1 << k) - 41, (1 << k) - 40, (1 << k) - 1, 1 << k, (1 << k) + 1]);
+        }
+        let mut part = Part::new("message_length_ladder", &format!("messages 0x5a^L for every L in 0..={} and L around 2^13 ... 2^20 ({} lengths): sign512(k1) twice on T0 and sign1024(k3) once on T1 (every 8th length); each salt is new in the whole run and not all zero, and the two signatures of the same message differ", top, lens.len()));
+        let mut zero_salts = 0u64;
+        for (li, &l) in lens.iter().enumerate() {
+            let msg = Arc::new(vec![0x5au8; l]);
+            let mut sigs: Vec<(Vec<u8>, &str)> = vec![];
+            for _ in 0..2 {
+                let (k, m) = (keys.clone(), msg.clone());
+                match workers[0].call(move || V512::sig_to_bytes(&V512::sign(&m, &k.k1))) {
+                    Ok(s) => sigs.push((s, "sign512(k1)")),
+                    Err(e) => ctx.violation("sign-panic:long-message".to_string(), format!("sign512 panicked on a message of {} bytes: {}", l, e), json!({"kind":"length","len":l})),
+                }
+            }
+            if li % 8 == 0 || l > top {
+                let (k, m) = (keys.clone(), msg.clone());
+                match workers[1].call(move || V1024::sig_to_bytes(&V1024::sign(&m, &k.k3))) {
+                    Ok(s) => sigs.push((s, "sign1024(k3)")),
+                    Err(e) => ctx.violation("sign-panic:long-message".to_string(), format!("sign1024 panicked on a message of {} bytes: {}", l, e), json!({"kind":"length","len":l})),
+                }
+            }
+            part.states += 1;
+            if sigs.len() >= 2 && sigs[0].0 == sigs[1].0 {
+                ctx.violation("same-signature-twice:by-length".to_string(), format!("signing the same {}-byte message twice gave byte-identical signatures", l), json!({"kind":"length","len":l}));
+            }
+            for (sig, who) in sigs {
+                part.transitions += 1;
+                part.validated += 1;
+                let salt = sig[1..41].to_vec();
+                for (i, b) in salt.iter().enumerate() {
+                    byte_values[i].insert(*b);
+                }
+                if salt.iter().all(|&b| b == 0) {
+                    zero_salts += 1;
+                }
+                let here = format!("{} on a message of {} bytes", who, l);
+                let bucket = if l <= 64 { "short" } else if l <= 1100 { "medium" } else { "long" };
+                if let Some(prev) = seen.get(&salt) {
+                    ctx.violation(format!("salt-repeated:message-length:{}", bucket), format!("salt {} of {} was already used at {}", hex(&salt[..8]), here, prev), json!({"kind":"length","len":l}));
+                } else {
+                    seen.insert(salt, here);
+                }
+            }
+        }
+        part.exhaustive = true;
+        part.outcome(format!("distinct salts overall {}", seen.len()));
+        part.outcome(format!("all-zero salts {}", zero_salts));
+        ctx.add_part(part);
+    }
+
     crate::e5::run_part(&mut ctx, "sign");
     // no constant byte position
     let constant: Vec<usize> = (0..40).filter(|&i| byte_values[i].len() < 2).collect();
